@@ -48,3 +48,15 @@ def recursive(fn):
     the defining equation is unfolded once for the arguments of every call made outside quantifier bodies."""
     fn._pv_recursive = True
     return fn
+
+
+def recursive_str(fn):
+    """like `recursive`, for a spec function whose value is a string"""
+    fn._pv_recursive = 'str'
+    return fn
+
+
+def recursive_int(fn):
+    """like `recursive`, for a spec function whose value is an integer"""
+    fn._pv_recursive = 'int'
+    return fn
